@@ -385,6 +385,11 @@ class _Derive:
                 nm = e.func.value.id
                 st.setdefault('domains', []).append((f'u{k}', nm, st['facts'].get('>=' + nm), st['facts'].get('<=' + nm)))
             return [_Part('fixed', width=k)]
+        if isinstance(e, ast.Constant) and isinstance(e.value, bytes) and 1 <= len(e.value) <= 2:
+            # a literal that may be the length prefix of the fixed-width part that follows (`b'\\x04'` before a float)
+            p = _Part('prefix', width=len(e.value), value=int.from_bytes(e.value, 'big'))
+            p.txt = 'literal'
+            return [p]
         n = self._len_of(e, st)
         if n is not None:
             return [_Part('fixed', width=n, var=ast.unparse(e))]
@@ -425,6 +430,10 @@ def helper_shapes(w: World, helper: str) -> tuple[set, list]:
                 i += 1
             elif p.kind == 'prefix':
                 nxt = parts[i + 1] if i + 1 < len(parts) else None
+                if nxt is None and p.txt == 'literal':
+                    toks.append(str(p.width))
+                    i += 1
+                    continue
                 if nxt is None:
                     ok = False
                     break
@@ -435,6 +444,9 @@ def helper_shapes(w: World, helper: str) -> tuple[set, list]:
                 elif p.value is not None and nxt.kind == 'fixed' and nxt.width == p.value:
                     toks += [str(p.width), f'n[u{p.width}]']
                     i += 2
+                elif p.txt == 'literal':
+                    toks.append(str(p.width))           # just literal bytes
+                    i += 1
                 else:
                     ok = False
                     problems.append(f'length prefix of `{p.var or p.value}` is followed by `{nxt.var or nxt.txt}`')
@@ -692,8 +704,19 @@ def run(w: World, rep: Report):
             defs = assigned.get(recv, [])
             is_len = 'len(' in recv or any('len(' in d or d == '0' for d in defs)
             is_op = 'opcodes_inverse' in recv
-            is_handle = not is_len and not is_op and recv.isidentifier() and \
-                any(g == f'0<={recv}<256' for g in guards_txt)
+            is_handle = False
+            if not is_len and not is_op and recv.isidentifier():
+                # some comparison in the parser admits exactly 0..255 for it (whatever its spelling)
+                from .feval import feval, Unknown, free_names
+                for cmpn in [x for x in ast.walk(fi.node) if isinstance(x, ast.Compare)]:
+                    if free_names(cmpn) != {recv}:
+                        continue
+                    try:
+                        acc = {v for v in range(-3, 300) if feval(cmpn, {recv: v})}
+                    except Unknown:
+                        continue
+                    if acc == set(range(256)):
+                        is_handle = True
             if order != 'big':
                 why = f'`{recv}.to_bytes` is not big-endian'
             if is_len and k != 2:
